@@ -116,11 +116,13 @@ pub enum Fault {
     BogusDeltaHash(usize), SwapFiles(usize), Oversize, EmptyList, BumpEntrySerial(usize),
     BogusSnapshotHash,
     /// File faults: target 0 = snapshot, i > 0 = the i-th delta entry.
-    FileStatus(usize, u16), FileEnd(usize, u8), FileDropElem(usize, usize),
+    FileStatus(usize, u16), FileEndBad(usize, u8), FileDropElem(usize, usize),
     FileExtraElem(usize, u8, bool), FileChangeContent(usize, usize),
     FileWrongPre(usize, usize), FileSession(usize), FileSerial(usize),
     FileGarbage(usize), FileRepeatElem(usize), FilePrefix(usize, usize),
     FileFraming(usize, u8),
+    /// Replace the elements by one applicable element on an object no listed delta touches.
+    FileBogusOnly(usize, u8),
 }
 
 impl Fault {
@@ -152,13 +154,14 @@ pub fn catalogue(step: &Step) -> Vec<Fault> {
         let elems = file_of(step, t).map(|f| f.elems.len()).unwrap_or(0);
         res.push(FileStatus(t, 404));
         res.push(FileStatus(t, 500));
-        for e in 0..3 { res.push(FileEnd(t, e)); }
+        for e in 0..3 { res.push(FileEndBad(t, e)); }
         res.push(FileSession(t));
         res.push(FileSerial(t));
         res.push(FileGarbage(t));
         res.push(FileRepeatElem(t));
         res.push(FileFraming(t, 1));
         res.push(FileFraming(t, 2));
+        if t > 0 { res.push(FileBogusOnly(t, 0)); res.push(FileBogusOnly(t, 1)); }
         for k in 0..3 { res.push(FileExtraElem(t, k, false)); res.push(FileExtraElem(t, k, true)); }
         for j in 0..elems {
             res.push(FileDropElem(t, j));
@@ -300,7 +303,7 @@ pub fn apply_fault(
         },
         BogusSnapshotHash => { step.notify.snapshot.hash = -1; true }
         FileStatus(t, s) => mutate_file(step, t, |f, _| f.status = s),
-        FileEnd(t, e) => mutate_file(step, t, |f, _| {
+        FileEndBad(t, e) => mutate_file(step, t, |f, _| {
             f.end = [FileEnd::Malformed, FileEnd::Cut, FileEnd::Torn][e as usize % 3]
         }),
         FileDropElem(t, j) => mutate_file(step, t, |f, _| {
@@ -355,6 +358,26 @@ pub fn apply_fault(
             f.elems.truncate(j + 1);
             f.end = FileEnd::Cut;
         }),
+        FileBogusOnly(t, k) => {
+            let pick = rng.next();
+            mutate_file(step, t, |f, whole| {
+                let mut touched: Vec<u64> = Vec::new();
+                for e in &whole.notify.deltas {
+                    if let Some(file) = whole.files.get(e.file) {
+                        touched.extend(file.elems.iter().map(|e| e.uri()));
+                    }
+                }
+                let free: Vec<u64> = (0..UNIVERSE).filter(|u| !touched.contains(u)).collect();
+                if free.is_empty() || f.kind != FileKind::Delta { return }
+                let u = free[(pick % free.len() as u64) as usize];
+                let after = present_after(f, history);
+                f.elems = vec![match (k % 2, after.get(&u)) {
+                    (0, Some(c)) => Elem::Publish { uri: u, hash: Some(*c), content: 7600 + u },
+                    (_, Some(c)) => Elem::Withdraw { uri: u, hash: *c },
+                    (_, None) => Elem::Publish { uri: u, hash: None, content: 7700 + u },
+                }];
+            })
+        }
         FileFraming(t, fr) => {
             // Not a fault: the genuine file under another framing.
             let e = if t == 0 { Some(step.notify.snapshot.clone()) } else { step.notify.deltas.get(t - 1).cloned() };
@@ -376,10 +399,11 @@ pub fn random_fault(step: &Step, rng: &mut Rng) -> Fault {
     // File faults dominate the catalogue by count; rebalance a little.
     if rng.chance(1, 3) {
         let light: Vec<&Fault> = cat.iter().filter(|f| {
-            !matches!(f, Fault::FileStatus(..) | Fault::FileEnd(..) | Fault::FileDropElem(..)
+            !matches!(f, Fault::FileStatus(..) | Fault::FileEndBad(..) | Fault::FileDropElem(..)
                 | Fault::FileExtraElem(..) | Fault::FileChangeContent(..) | Fault::FileWrongPre(..)
                 | Fault::FileSession(..) | Fault::FileSerial(..) | Fault::FileGarbage(..)
-                | Fault::FileRepeatElem(..) | Fault::FilePrefix(..) | Fault::FileFraming(..))
+                | Fault::FileRepeatElem(..) | Fault::FilePrefix(..) | Fault::FileFraming(..)
+                | Fault::FileBogusOnly(..))
         }).collect();
         return (*rng.pick(&light)).clone()
     }
@@ -418,17 +442,18 @@ pub fn gen_scenario(rng: &mut Rng, thorough: bool) -> Scenario {
 }
 
 /// The fixed history used for the exhaustive (step, fault) enumeration:
-/// four versions in one session touching all element kinds, plus a new session.
+/// five versions in one session using all element kinds; object 1 is never touched
+/// and delta 5 touches only object 2 (so that bogus or skipped changes can go unnoticed).
 pub fn base_history() -> Vec<Version> {
     let v = |session, serial, objs: &[(u64, u64)]| Version {
         session, serial, objs: objs.iter().cloned().collect()
     };
     vec![
         v(0, 3, &[(0, 10), (1, 11), (2, 12)]),
-        v(0, 4, &[(0, 10), (1, 13), (2, 12), (3, 14)]),
-        v(0, 5, &[(1, 13), (2, 15), (3, 14)]),
-        v(0, 6, &[(0, 16), (1, 13), (2, 15)]),
-        v(0, 7, &[(0, 16), (1, 13), (2, 15), (3, 17)]),
+        v(0, 4, &[(0, 10), (1, 11), (2, 13), (3, 14)]),
+        v(0, 5, &[(0, 10), (1, 11), (2, 15), (3, 14)]),
+        v(0, 6, &[(1, 11), (2, 15)]),
+        v(0, 7, &[(0, 16), (1, 11), (2, 15), (3, 17)]),
     ]
 }
 
@@ -474,14 +499,14 @@ pub fn enumerate_pairs(rng: &mut Rng, all: bool) -> Vec<Scenario> {
     let clean = genuine_step(&history, 2, 5, 60);
     let cat = catalogue(&clean);
     let is_delta_file_fault = |f: &Fault| match f {
-        Fault::FileEnd(t, _) | Fault::FileDropElem(t, _) | Fault::FileExtraElem(t, _, _)
+        Fault::FileEndBad(t, _) | Fault::FileDropElem(t, _) | Fault::FileExtraElem(t, _, _)
         | Fault::FileChangeContent(t, _) | Fault::FileWrongPre(t, _)
-        | Fault::FileRepeatElem(t) | Fault::FilePrefix(t, _) => *t > 0,
+        | Fault::FileRepeatElem(t) | Fault::FilePrefix(t, _) | Fault::FileBogusOnly(t, _) => *t > 0,
         _ => false
     };
     let is_snapshot_fault = |f: &Fault| match f {
         Fault::BogusSnapshotHash => true,
-        Fault::FileStatus(0, _) | Fault::FileEnd(0, _) | Fault::FileGarbage(0)
+        Fault::FileStatus(0, _) | Fault::FileEndBad(0, _) | Fault::FileGarbage(0)
         | Fault::FileSerial(0) => true,
         _ => false
     };
